@@ -81,7 +81,33 @@ def main():
                     print("      ", r.get("tail", "")[-500:])
             if not any(r["result"] == "DETECTED" and r["property"] == meta["property"] for r in runs):
                 ok = False
+    write_readme()
     return 0 if ok else 1
+
+
+def write_readme():
+    """seeded/README.md: one row per seeded change."""
+    rows = []
+    for d in sorted(p for p in SEEDED.iterdir() if (p / "meta.json").exists()):
+        m = json.loads((d / "meta.json").read_text())
+        runs = [r for r in m.get("check_runs", []) if r.get("property") == m["property"]]
+        det = [r for r in runs if r.get("result") == "DETECTED"]
+        first = (m.get("needs_to_manifest") or "").strip().splitlines()
+        title = first[0][:110] if first else ""
+        sig = (det[0]["signatures"][0] if det and det[0].get("signatures") else "")[:90]
+        rows.append(f"| {m['id']} | {m['property']} | {title} | {'detected' if det else 'MISSED'} | `{sig}` | {m.get('strengthened', '')} |")
+    text = (
+        "# Independently seeded changes\n\n"
+        "Each directory holds a change to OpenCyphal/nunavut written by a fresh sub-agent that saw only the text of one property and a\n"
+        "scratch worktree (nothing from /verif): `patch.diff`, `demo.py` (passes without / fails with the change), `notes.md`,\n"
+        "`meta.json` (what it needs to manifest, what was run to confirm it, outcome of the registered check).  Every change was\n"
+        "confirmed first (`python -m vf.verify_seed`): applies to a clean checkout, the pinned suite passes the same 415 ids, the\n"
+        "demonstration flips.  `python -m vf.seeded` re-runs the quick checks against all of them on scratch copies.\n\n"
+        "| id | property | change (first line of the author's notes) | quick check | first signature | check strengthened because of it |\n|---|---|---|---|---|---|\n"
+        + "\n".join(rows)
+        + "\n"
+    )
+    (SEEDED / "README.md").write_text(text)
 
 
 if __name__ == "__main__":
